@@ -83,13 +83,16 @@ TInit ==
         /\ stat' = [stat EXCEPT !["Init"] = @ + 1, !["histories"] = @ + 1, !["facts_U"] = @ + NumU(Rec)]
   /\ UNCHANGED ub
 
+\* dcls = "tiny": the next surface lies within 100x the geometry tolerance of the track (edge or
+\* corner of the geometry): such states are outside the property, the history is not judged further
 TFind ==
   /\ l > 1 /\ Rec.e \in {"Find", "FindMax"} /\ ph \in {"I", "Bp"} /\ Rec.pre_ph = ph
-  /\ LET cl == FindClauses(Rec) \cup (IF Rec.e = "FindMax" THEN TruncClauses(Rec) ELSE {})
-               \cup StateClauses(Rec, ph)
+  /\ LET cl == IF Rec.dcls = "tiny" THEN {}
+               ELSE FindClauses(Rec) \cup (IF Rec.e = "FindMax" THEN TruncClauses(Rec) ELSE {})
+                    \cup StateClauses(Rec, ph)
      IN /\ Judge(cl, {}, Rec.e, NumU(Rec))
-        /\ ok' = (ok /\ cl = {})
-  /\ has' = (Rec.dcls = "pos") /\ nb' = (Rec.b /\ Rec.dcls = "pos")
+        /\ ok' = (ok /\ cl = {} /\ Rec.dcls # "tiny")
+  /\ has' = (Rec.dcls \in {"pos", "tiny"}) /\ nb' = (Rec.b /\ Rec.dcls \in {"pos", "tiny"})
   /\ ph' = IF Rec.dcls = "inf" THEN "O" ELSE ph
   /\ UNCHANGED ub
 
